@@ -34,11 +34,15 @@ fn finder(args: &[String]) {
     let name = &args[1];
     let alphabet = unhex(&args[2]);
     let maxlen: usize = args[3].parse().unwrap();
+    let prefix = if args.len() > 4 { unhex(&args[4]) } else { Vec::new() };
+    // optional: only accept a panic whose message mentions this location (file.rs:line)
+    let want = if args.len() > 5 { args[5].clone() } else { String::new() };
     let mut tried: u64 = 0;
     for len in 0..=maxlen {
         let mut idx = vec![0usize; len];
         loop {
-            let input: Vec<u8> = idx.iter().map(|i| alphabet[*i]).collect();
+            let mut input: Vec<u8> = prefix.clone();
+            input.extend(idx.iter().map(|i| alphabet[*i]));
             tried += 1;
             let (m, n, inp) = (module.clone(), name.clone(), input.clone());
             let r = panic::catch_unwind(move || check(&m, &n, &inp));
@@ -50,8 +54,10 @@ fn finder(args: &[String]) {
                 }
                 Err(_) => {
                     let msg = super::LAST.lock().unwrap().take().unwrap_or_default();
-                    println!("{{\"found\":true,\"input\":\"{}\",\"message\":{:?},\"tried\":{}}}", hex(&input), msg, tried);
-                    return;
+                    if want.is_empty() || msg.contains(&want) {
+                        println!("{{\"found\":true,\"input\":\"{}\",\"message\":{:?},\"tried\":{}}}", hex(&input), msg, tried);
+                        return;
+                    }
                 }
             }
             // next
